@@ -1,6 +1,11 @@
 package props
 
-import "time"
+import (
+	"strings"
+	"time"
+
+	"verif/mc/explore"
+)
 
 func withCleans(m *PktModel, max uint64) *PktModel {
 	m.Cleans = true
@@ -24,10 +29,19 @@ func modelsC02(tier string) ([]*PktModel, []int) {
 func CheckC02(tier string) int {
 	models, depth := modelsC02(tier)
 
-	return RunPkt("C02", tier, models, depth, tierBudget(tier, 90*time.Second, 15*time.Minute), append([]string{
+	// the long-channel script of C10 (12 packets, cleaned in one or two stages, every original receive message replayed
+	// verbatim afterwards): a second acceptance of a delivered packet is a violation of this property
+	var extra []explore.Finding
+	for _, f := range append(longChannelCleans(tier), crossChannelCleans()...) {
+		if strings.HasPrefix(f.Signature, "recv-") {
+			f.Property = "C02"
+			extra = append(extra, f)
+		}
+	}
+	return RunPktExtra("C02", tier, models, depth, tierBudget(tier, 90*time.Second, 15*time.Minute), append([]string{
 		"safety: ghost counters of successful MsgRecvPacket per (chain, source, destination, sequence) and of destination application callbacks never exceed 1 on any path; every previously delivered or cleaned packet is re-submitted with a fresh, current proof in every later state and must be rejected",
 		"liveness sentence: every honest relay transition the model enables (previous hop holds the commitment, no receipt, sequence above the clean point) must return code 0",
-	}, commonAssumptions...))
+	}, commonAssumptions...), extra)
 }
 
 // CheckC03: acknowledgements authentic, once, never overwritten.
